@@ -175,6 +175,9 @@ func (this *Hnsw) Remove(id uuid.UUID) error {
 		for l := vertex.level; l >= 0; l-- {
 			vertex.edgeMutexes[l].RLock()
 			for neighbor, distance := range vertex.edges[l] {
+				if neighbor.isDeleted() {
+					continue
+				}
 				if distance < minDistance {
 					minDistance = distance
 					closestNeighbor = neighbor
@@ -185,6 +188,10 @@ func (this *Hnsw) Remove(id uuid.UUID) error {
 			if closestNeighbor != nil {
 				break
 			}
+		}
+		if closestNeighbor == nil {
+			// No live neighbor to hand over to. Fall back to any stored vertex.
+			closestNeighbor = this.highestVertex()
 		}
 		atomic.CompareAndSwapPointer(&this.entrypoint, currEntrypoint, unsafe.Pointer(closestNeighbor))
 	}
@@ -284,6 +291,20 @@ func (this *Hnsw) removeVertex(id uuid.UUID) (*hnswVertex, error) {
 	}
 
 	return nil, ItemNotFoundError
+}
+
+func (this *Hnsw) highestVertex() *hnswVertex {
+	var result *hnswVertex
+	for i, _ := range this.vertices {
+		this.verticesMu[i].RLock()
+		for _, vertex := range this.vertices[i] {
+			if result == nil || vertex.level > result.level {
+				result = vertex
+			}
+		}
+		this.verticesMu[i].RUnlock()
+	}
+	return result
 }
 
 func (this *Hnsw) greedyClosestNeighbor(query math.Vector, entrypoint *hnswVertex, minDistance float32, level int) (*hnswVertex, float32) {
